@@ -178,7 +178,10 @@ func (r *envelopeReader) Unmarshal(message any) *Error {
 
 func (r *envelopeReader) Read(env *envelope) *Error {
 	prefixes := [5]byte{}
-	prefixBytesRead, err := r.reader.Read(prefixes[:])
+	// The transport may deliver the prefix in several pieces, and it may deliver
+	// the last piece of the stream together with io.EOF: only a prefix that is
+	// entirely absent is a clean end of the stream.
+	prefixBytesRead, err := io.ReadFull(r.reader, prefixes[:])
 
 	switch {
 	case (err == nil || errors.Is(err, io.EOF)) &&
